@@ -324,3 +324,22 @@ func Dominates(a, b ssa.Instruction) bool {
 	}
 	return ba.Dominates(bb)
 }
+
+// Returns lists the normal return instructions of fn (the synthetic return of
+// the recover block of a function with defers is excluded).
+func Returns(fn *ssa.Function) []*ssa.Return {
+	var out []*ssa.Return
+	for _, b := range fn.Blocks {
+		if b == fn.Recover {
+			continue
+		}
+		if r, ok := b.Instrs[len(b.Instrs)-1].(*ssa.Return); ok {
+			out = append(out, r)
+		}
+	}
+	return out
+}
+
+// Result is result i of a return, looking through the spill slots go/ssa
+// introduces for functions with defers or named results.
+func Result(r *ssa.Return, i int) ssa.Value { return Forward(r.Results[i]) }
